@@ -23,6 +23,133 @@ def check(run):
             qo["obs"] = [o for o in qo["obs"] if o.get("k", 0) == 0]
     rejects = qobs.judge(run, cases)
     c01.report(run, "C09", cases, meta, rejects, "c09")
+    layouts(run, rng, 4 if quick else 40, 8 if quick else 12)
+
+
+def all_weightings():
+    from whoosh import scoring
+
+    class Doubled(scoring.BM25F):          # a final() hook that depends on the score only
+        use_final = True
+
+        def final(self, searcher, docnum, score):
+            return score * 2.0 + 1.0
+    return [("BM25F", scoring.BM25F()), ("BM25F(B=0.2,K1=2)", scoring.BM25F(B=0.2, K1=2.0)),
+            ("BM25F(title_B=1)", scoring.BM25F(B=0.5, title_B=1.0)), ("TF_IDF", scoring.TF_IDF()),
+            ("PL2", scoring.PL2()), ("DFree", scoring.DFree()), ("Frequency", scoring.Frequency()),
+            ("Multi", scoring.MultiWeighting(scoring.BM25F(), title=scoring.TF_IDF())),
+            ("Function", scoring.FunctionWeighting(lambda s, f, t, m: m.weight() * 0.5 + 1.0)),
+            ("Reverse(BM25F)", scoring.ReverseWeighting(scoring.BM25F())), ("BM25F+final", Doubled())]
+
+
+BM25_PARAMS = {"BM25F": (0.75, 0.75, 1.2), "BM25F(B=0.2,K1=2)": (0.2, 0.2, 2.0), "BM25F(title_B=1)": (0.5, 1.0, 1.2)}
+
+
+def reference_score(wname, field, st, weight, length):
+    """The documented formula, fed with statistics that TLC has checked against the corpus model."""
+    import math
+    idf = math.log(st["n"] / (st["df"] + 1.0)) + 1.0
+    if wname == "TF_IDF":
+        return weight * idf
+    bbody, btitle, k1 = BM25_PARAMS[wname]
+    b = btitle if field == "title" else bbody
+    avgfl = (st["totlen"] / float(st["n"])) or 1.0
+    return idf * ((weight * (k1 + 1.0)) / (weight + k1 * ((1.0 - b) + b * length / avgfl)))
+
+
+def layouts(run, rng, nworlds, nqueries):
+    """Deletion-free corpora built in one segment and in several: every weighting must give every
+    document the same score in every layout (judged by TLC on interned scores), the statistics the
+    formulas use must be the corpus model's (TLC), and BM25F / TF_IDF term scores must be the
+    documented formula of those statistics."""
+    cases, info = [], []
+    for wi in range(nworlds):
+        n = rng.randrange(4, 10)
+        adocs = {"k%d" % i: world.rand_doc(rng, boosts=(wi % 2 == 1)) for i in range(n)}
+        keys = sorted(adocs)
+        plans = [[("commit", keys, {"optimize": True})]]
+        for _ in range(2):
+            ks = keys[:]
+            rng.shuffle(ks)
+            cuts = sorted(rng.sample(range(1, n), rng.randrange(1, min(3, n - 1) + 1)))
+            plans.append([("commit", ks[i:j], {"merge": False}) for i, j in zip([0] + cuts, cuts + [n])])
+        worlds = [world.World(adocs, pl, storage="ram", blocklimit=rng.choice([None, 2])) for pl in plans]
+        try:
+            base = None
+            queries = [world.rand_query(rng, rng.randrange(0, 3), scored_only=True, ops=c01_ops()) for _ in range(nqueries)]
+            lex = sorted(set((f, tuple(t)) for d in adocs.values() for f in world.TEXT_FIELDS
+                             for t in d["t"].get(f, []) if t != [0]))
+            queries += [{"op": "term", "f": f, "t": list(t), "b4": 4} for f, t in rng.sample(lex, min(4, len(lex)))]
+            qs = [{"q": aq, "obs": []} for aq in queries]
+            for wname, wobj in all_weightings():
+                per_layout = []
+                for w in worlds:
+                    with w.ix.searcher(weighting=wobj) as s:
+                        if base is None:
+                            base = w.abstract_index(s.reader())
+                            key2dn = dict((d["key"], i) for i, d in enumerate(base["docs"]))
+                        rows = []
+                        for aq in queries:
+                            r = s.search(world.to_query(aq), limit=None)
+                            rows.append(dict((h["key"], h.score) for h in r))
+                        per_layout.append(rows)
+                        if wname in BM25_PARAMS or wname == "TF_IDF":
+                            for qi, aq in enumerate(queries):
+                                if aq["op"] == "term" and aq.get("b4", 4) == 4:
+                                    st = termstats(s, aq, key2dn)
+                                    if w is worlds[0] and wname == "BM25F":
+                                        qs[qi]["obs"].append(st)
+                                    for dn, w4, fl in st["docs"]:
+                                        k = base["docs"][dn]["key"]
+                                        want = reference_score(wname, aq["f"], st, w4 / 4.0, fl)
+                                        got = rows[qi].get(k)
+                                        run.count(1)
+                                        if got is None or abs(got - want) > 1e-9 * max(1.0, abs(want)):
+                                            run.violation({"check": "c09-formula", "weighting": wname, "field": aq["f"],
+                                                           "multiseg": w is not worlds[0]},
+                                                          {"adocs": adocs, "plan": plans[worlds.index(w)], "q": aq,
+                                                           "key": k, "got": got, "formula": want, "stats": st})
+                for qi, aq in enumerate(queries):
+                    # interning: floats that differ only by the rounding of a different summation order
+                    # (the shape of the matcher tree depends on per-segment sizes) get the same rank
+                    vals = sorted(set(v for rows in per_layout for v in rows[qi].values()))
+                    rank, r, prev = {}, -1, None
+                    for v in vals:
+                        if prev is None or abs(v - prev) > 1e-9 * max(1.0, abs(v), abs(prev)):
+                            r += 1
+                        rank[v] = r
+                        prev = v
+                    maps = [sorted([key2dn[k], rank[v]] for k, v in rows[qi].items()) for rows in per_layout]
+                    qs[qi]["obs"].append({"kind": "layouts", "path": "layouts[%s]" % wname, "maps": maps})
+                    run.count(1)
+            cases.append({"idx": base, "qs": qs})
+            info.append({"plan": plans, "nseg": max(len(p) for p in plans), "deleted": 0})
+        finally:
+            for w in worlds:
+                w.close()
+    rejects = qobs.judge(run, cases, name="QueryCheck-layouts")
+    c01.report(run, "C09", cases, info, rejects, "c09-layouts")
+
+
+def c01_ops():
+    return ["term", "every", "and", "or", "dismax", "andnot", "andmaybe", "require", "const", "phrase", "prefix"]
+
+
+def termstats(s, aq, key2dn):
+    """What the weighting formulas are fed with, read through the searcher's public statistics."""
+    from whoosh.query import Term
+    f, text = aq["f"], world.term_text(aq["t"])
+    rd = s.reader()
+    docs = []
+    m = Term(f, text).matcher(s, s.context())
+    while m.is_active():
+        dn = m.id()
+        k = rd.stored_fields(dn)["key"]
+        docs.append([key2dn[k], int(round(m.weight() * 4)), int(s.doc_field_length(dn, f, 1))])
+        m.next()
+    return {"kind": "termstats", "path": "statistics(%s)" % f, "f": f, "t": aq["t"], "n": int(s.doc_count_all()),
+            "df": int(s.doc_frequency(f, text)), "cf4": int(round(s.reader().frequency(f, text) * 4)),
+            "totlen": int(s.field_length(f)), "docs": sorted(docs)}
 
 
 def replay(run, rp):
